@@ -1,3 +1,160 @@
 import Driver.Common
-/- stub: model driver for C04 not built yet -/
-def main : IO Unit := Driver.lineLoop (fun _ => "unimplemented")
+import ThriftVerif.Lib.Diag
+import ThriftVerif.Generated.C04
+
+/-
+  tv_c04: runs the Diag model on programs serialised by harness/cmd/c04.
+    S <program>            → staged verdict of circle / CheckAll / ResolveSymbols
+    R <6 env bits> <program> → outcome class of `run`
+  program := <nfiles> <root> file*           (see harness/cmd/c04/encode.go)
+-/
+namespace Driver.C04
+open Diag
+
+abbrev P := StateT (List String) Option
+
+def tok : P String := do
+  match (← get) with
+  | [] => failure
+  | t :: r => set r; pure t
+
+def nat : P Nat := do
+  let t ← tok
+  match t.toNat? with
+  | some n => pure n
+  | none => failure
+
+def int : P Int := do
+  let t ← tok
+  match t.toInt? with
+  | some n => pure n
+  | none => failure
+
+def name : P Name := do
+  let t ← tok
+  match VL.hexDecode t with
+  | some b => pure b
+  | none => failure
+
+def bool : P Bool := do
+  let t ← tok
+  pure (t == "1")
+
+def many {α : Type} (x : P α) : P (List α) := do
+  let n ← nat
+  let rec go : Nat → List α → P (List α)
+    | 0, acc => pure acc.reverse
+    | k + 1, acc => do
+      let a ← x
+      go k (a :: acc)
+  go n []
+
+partial def ty : P Ty := do
+  let t ← tok
+  match t with
+  | "b" => pure .base
+  | "l" => do let v ← ty; pure (.list v)
+  | "m" => do let k ← ty; let v ← ty; pure (.map k v)
+  | "r" => do let n ← name; pure (.ref n)
+  | _ => failure
+
+def field : P Field := do
+  let id ← int
+  let n ← name
+  let t ← ty
+  let hd ← bool
+  let ids ← many name
+  pure ⟨id, n, t, hd, ids⟩
+
+def structLike : P StructLike := do
+  let n ← name
+  let fs ← many field
+  pure ⟨n, fs⟩
+
+def enumDef : P EnumDef := do
+  let n ← name
+  let vs ← many (do let vn ← name; let v ← int; pure (vn, v))
+  pure ⟨n, vs⟩
+
+def func : P Func := do
+  let n ← name
+  let ow ← bool
+  let vd ← bool
+  let r ← ty
+  let args ← many field
+  let thr ← many field
+  pure ⟨n, ow, vd, r, args, thr⟩
+
+def service : P Service := do
+  let n ← name
+  let e ← name
+  let fs ← many func
+  pure ⟨n, e, fs⟩
+
+def file : P File := do
+  let t ← tok
+  if t != "F" then failure
+  let fnm ← name
+  let incs ← many (do let p ← name; let r ← nat; pure (⟨p, r⟩ : Include))
+  let tds ← many (do let a ← name; let t ← ty; pure (⟨a, t⟩ : Typedef))
+  let cs ← many (do let n ← name; let t ← ty; let ids ← many name; pure (⟨n, t, ids⟩ : Const))
+  let es ← many enumDef
+  let ss ← many structLike
+  let us ← many structLike
+  let xs ← many structLike
+  let svs ← many service
+  pure ⟨fnm, incs, tds, cs, es, ss, us, xs, svs⟩
+
+def program : P Program := do
+  let n ← nat
+  let root ← nat
+  let rec go : Nat → List File → P (List File)
+    | 0, acc => pure acc.reverse
+    | k + 1, acc => do
+      let f ← file
+      go k (f :: acc)
+  let fs ← go n []
+  pure ⟨fs, root⟩
+
+def fnName : CheckFn → String
+  | .globals => "CheckGlobals" | .enums => "CheckEnums" | .structLikes => "CheckStructLikes"
+  | .unions => "CheckUnions" | .functions => "CheckFunctions"
+
+def cfg : Cfg := Generated.C04.cfg
+
+def staged (p : Program) : String :=
+  if !wfb p then "not-wf" else
+  match circleDetect p with
+  | none => "crash"
+  | some true => "circle"
+  | some false =>
+    match checkAll cfg p with
+    | .exhausted => "crash"
+    | .err i c _ => s!"check {i} {fnName c}"
+    | .ok =>
+      match resolveAll cfg p with
+      | .crash => "crash"
+      | .err i _ => s!"resolve {i}"
+      | .ok => "ok"
+
+def outcomeStr : Outcome → String
+  | .ok => "ok" | .reject _ => "reject" | .crash => "crash" | .exit0NoOutput => "exit0_without_output"
+
+def handleLine (line : String) : String :=
+  match VL.toks line with
+  | "S" :: rest =>
+    match program.run rest with
+    | some (p, []) => staged p
+    | _ => "bad-op"
+  | "R" :: f1 :: f2 :: f3 :: f4 :: f5 :: f6 :: rest =>
+    match program.run rest with
+    | some (p, []) =>
+      let env : Env := ⟨f1 == "1", f2 == "1", f3 == "1", f4 == "1", f5 == "1", f6 == "1"⟩
+      let r := run cfg env p
+      outcomeStr r.outcome ++ (if r.persisted then " persisted" else " nothing-written")
+    | _ => "bad-op"
+  | _ => "bad-op"
+
+end Driver.C04
+
+def main : IO Unit := Driver.lineLoop Driver.C04.handleLine
